@@ -117,9 +117,9 @@ func (w Win) inUsed(i, j int) bool {
 // bits is a set of indices into the backing array.
 type bits []uint64
 
-func newBits(L int) bits        { return make(bits, (L+63)/64) }
-func (b bits) set(i int)        { b[i>>6] |= 1 << (uint(i) & 63) }
-func (b bits) has(i int) bool   { return b[i>>6]&(1<<(uint(i)&63)) != 0 }
+func newBits(L int) bits      { return make(bits, (L+63)/64) }
+func (b bits) set(i int)      { b[i>>6] |= 1 << (uint(i) & 63) }
+func (b bits) has(i int) bool { return b[i>>6]&(1<<(uint(i)&63)) != 0 }
 func (b bits) meets(o bits) bool {
 	for i := range b {
 		if b[i]&o[i] != 0 {
